@@ -193,6 +193,9 @@ def _c06():
                          "for every pair of tail words: not NaN, |x| >= R, sign(x) == sign(u) (first word fixed: layer 0, |u| at its extreme)", kind="bounded", timeout=1800, extra=["--no-unwinding-checks"],
                          bound="one iteration of the tail loop (unwind 2, no unwinding assertion); first word concrete", stubs=["exp", "log"],
                          replay={"kind": "sampler", "id": nm[4:], "float": "f64"}))
+    out.append(plain("c06_exp_tail", "c06", ["C06", "C03"], "Exp1::sample tail branch (zero_case)", "src/exponential.rs", [("tailwords", "words2")],
+                     "first word fixed (layer 0, u -> 1): for every following word the value is >= R, not NaN, and exactly one further word is drawn", kind="bounded", timeout=900, extra=["--no-unwinding-checks"],
+                     bound="first word concrete; one pass through the ziggurat loop body", stubs=["exp", "log"]))
     out.append(plain("c06_exp_step", "c06", ["C06", "C03"], "utils::ziggurat + Exp1::sample (one iteration)", "src/utils.rs", [("words", "words4")],
                      "for every word: not NaN; x > 0; x <= X[i] for i>0; i==0: x <= X[0] or x >= R; finite unless the tail uniform is exactly 0 (known finding)", kind="bounded", tier="thorough", timeout=3600, extra=["--no-unwinding-checks"],
                      bound="one execution of the ziggurat loop body (unwind 1, no unwinding assertion); inductive because every iteration starts from the same state",
@@ -235,6 +238,8 @@ WEIGHT_UNITS = [
           tier="quick" if t in ("u64", "i32") else "thorough")
     for t in ("u8", "u16", "u32", "u64", "u128", "usize", "i8", "i16", "i32", "i64", "i128", "isize")
 ] + [
+    plain("c04_tree_f32_invalid_weight_rejected", "weights", ["C04", "C09"], "WeightedTreeIndex<f32>::push / update", "src/weighted/weighted_tree.rs", [("w0", "f32"), ("w1", "f32"), ("x", "f32")],
+          "2-node f32 tree, every NaN or negative weight: push/update return Err(InvalidWeight) and leave the tree unchanged", kind="bounded", bound="tree of exactly 2 nodes", timeout=900),
     dict(plain("kf_tree_f32_rounding_panics", "weights", ["C10"], "WeightedTreeIndex<f32>::try_sample", "src/weighted/weighted_tree.rs", [],
                "pinned known finding: WeightedTreeIndex::<f32>::new([2.5449841e19, 3.5183273e16]) is_valid() but try_sample panics for word 0xffffffff"), expect="refuted"),
     dict(plain("kf_tree_f32_subnormal_total_panics", "weights", ["C10"], "WeightedTreeIndex<f32>::try_sample", "src/weighted/weighted_tree.rs", [],
